@@ -298,13 +298,15 @@ def run():
     m = must(ws(r"let mut jumps = \[0u64; (\d+)\]; let mut j = xr2; for k in 1\.\.=jumps\.len\(\) \{ jumps\[k - 1\] = j; "
                 r"j = mg_mul\(n, ninv, j, xr2\); \}"), b_pb, "PM1Base::factor: jumps")
     pb_jumps = int(m.group(1))
-    m = must(ws(r"let mut product = h \+ minus_one_r; let mut exp = (\d+); debug_assert!\(self\.larges\[0\] == (\d+)\); "
+    must(ws(r"let sub_one = \|x: u64\| if x >= one_r \{ x - one_r \} else \{ x \+ minus_one_r \};"), b_pb,
+         "PM1Base::factor: (x - 1) in Montgomery form (fix 7e3b2f6)")
+    m = must(ws(r"let mut product = sub_one\(h\); let mut exp = (\d+); debug_assert!\(self\.larges\[0\] == (\d+)\); "
                 r"for \(idx, &p\) in self\.larges\[1\.\.pmax\]\.iter\(\)\.enumerate\(\) \{"), b_pb, "PM1Base::factor: stage-2 loop")
     if m.group(1) != m.group(2):
         raise ExtractError("PM1Base::factor: start exponent and asserted first large prime differ")
     pb_first = int(m.group(1))
     must(ws(r"let gap = \(p - exp\) as usize; h = mg_mul\(n, ninv, h, jumps\[gap / 2 - 1\]\); "
-            r"product = mg_mul\(n, ninv, product, h \+ minus_one_r\); exp = p;"), b_pb, "PM1Base::factor: gap step")
+            r"product = mg_mul\(n, ninv, product, sub_one\(h\)\); exp = p;"), b_pb, "PM1Base::factor: gap step")
     # h starts as xr^first: 120*4 + 22 + 1
     must(ws(r"let xr240 = mg_mul\(n, ninv, jumps\[120 / 2 - 1\], jumps\[120 / 2 - 1\]\); let xr480 = mg_mul\(n, ninv, xr240, xr240\); "
             r"let xr502 = mg_mul\(n, ninv, xr480, jumps\[22 / 2 - 1\]\); let mut h = mg_mul\(n, ninv, xr502, xr\);"), b_pb,
